@@ -24,12 +24,12 @@ def findings_tables():
         if not subj.startswith("fix:"):
             continue
         keys = [x["key"] for c, xs in fixed.items() if h.startswith(c) or c.startswith(h) for x in xs]
-        out.append(f"| {h} | {subj[5:]} | {', '.join('`'+q+'`' for q in keys) or '(no listed instance)'} |")
+        out.append(f"| {h} | {subj[5:]} | {', '.join('`'+q.replace('|', '¦')+'`' for q in keys) or '(no listed instance)'} |")
     out += ["", "**Recorded, open** (printed as KNOWN-FINDING lines; each with an executed witness):", "",
             "| property | key | what fails |", "|---|---|---|"]
     for x in k:
         if x["status"] == "open":
-            out.append(f"| {x['property']} | `{x['key']}` | {re.sub(r'\\s+', ' ', x['what']).replace('|', '/')[:260]} |")
+            out.append(f"| {x['property']} | `{x['key'].replace('|', '¦')}` | {re.sub(r'\\s+', ' ', x['what']).replace('|', '/')[:260]} |")
     c = collections.Counter((x["property"], x["status"]) for x in k)
     out += ["", "Counts (open / fixed) per property: " + ", ".join(f"{p} {c[(p,'open')]}/{c[(p,'fixed')]}" for p in sorted({x['property'] for x in k}))]
     return "\n".join(out)
